@@ -1,6 +1,6 @@
 (** C02 — Session delivery: no event lost, duplicated or reordered within a writer. *)
 From Coq Require Import List ZArith NArith Bool Sorted.
-From BL Require Import Base.Bytes Reader.Entry Queue.QueueModel Queue.QueueInv Session.SessionModel Session.SessionInv Session.SessionProps Session.SessionRemoval Session.SessionReplace Gen.SrcFacts.
+From BL Require Import Base.Bytes Reader.Entry Queue.QueueModel Queue.QueueInv Session.SessionModel Session.SessionInv Session.SessionProps Session.SessionRemoval Session.SessionReplace Session.SessionPieces Gen.SrcFacts.
 Import ListNotations.
 Local Open Scope Z_scope.
 
@@ -99,6 +99,30 @@ Proof.
   exact abandoned_queue_gone_after_next_consume.
 Qed.
 Print Assumptions C02_abandoned_queue_gone_after_next_consume.
+
+(** (2e) ... and the output of one consume, attributed: what the channel loop writes is the concatenation of one piece per polled channel
+    ([consume_pieces], the same recursion as the loop, each piece tagged with the uid of the channel polled for it), after the metadata;
+    the uids of the pieces are strictly increasing, and piece j belongs to the channel at position j of the list the loop leaves. So within
+    one consume the data of a channel created earlier is written before the data of one created later - for every history and every
+    schedule of writer actions inside the consume. With (2c) and (2d): the abandoned queue's remaining events (all of them) precede the
+    replacement channel's events in the first consume after a replacement, and later consumes no longer contain the abandoned queue. *)
+Theorem C02_consume_writes_channels_in_creation_order : forall cs ops plans, Forall sop_rm ops ->
+  let s := fst (srun SrcFacts.sess_fence_after_closed_test (sess_init cs) ops) in
+  (exists meta, snd (fst (consume SrcFacts.sess_fence_after_closed_test s plans)) = meta ++ concat (map snd (consume_pieces s plans))) /\
+  (forall j1 j2 u1 u2, (j1 < j2)%nat -> nth_error (map fst (consume_pieces s plans)) j1 = Some u1 ->
+      nth_error (map fst (consume_pieces s plans)) j2 = Some u2 -> (u1 < u2)%N) /\
+  (forall j u, nth_error (map fst (consume_pieces s plans)) j = Some u -> nth_error (map ch_uid (consume_marked s plans)) j = Some u).
+Proof.
+  generalize (eq_refl : SrcFacts.sess_fence_after_closed_test = true). generalize SrcFacts.sess_fence_after_closed_test. intros b_ ->.
+  generalize (eq_refl : SrcFacts.sess_consume_order = true). generalize SrcFacts.sess_consume_order. intros b2 ->.
+  generalize (eq_refl : SrcFacts.sess_create_appends = true). generalize SrcFacts.sess_create_appends. intros b3 ->.
+  exact pieces_in_creation_order.
+Qed.
+Print Assumptions C02_consume_writes_channels_in_creation_order.
+Example C02_pieces_nonvacuous :
+  let s := fst (srun true (sess_init default_cs) rm_ops) in
+  map fst (consume_pieces s []) = [0; 1; 2]%N /\ map (fun p => length (snd p)) (consume_pieces s []) = [2; 2; 2]%nat.
+Proof. exact pieces_nonvacuous. Qed.
 Example C02_replacement_nonvacuous :
   let s := fst (srun true (sess_init default_cs) rm_ops) in
   map (fun c => match ch_owner c with None => true | _ => false end) (channels s) = [true; true; false] /\
